@@ -62,16 +62,19 @@ static void ep2_mul_sim_endom(ep2_t r, const ep2_t p, const bn_t k,
 	bn_null(n);
 	bn_null(u);
 
+	for (int i = 0; i < 4; i++) {
+		bn_null(_k[i]);
+		bn_null(_m[i]);
+		ep2_null(_p[i]);
+		ep2_null(_q[i]);
+	}
+
 	RLC_TRY {
 		bn_new(n);
 		bn_new(u);
 		for (int i = 0; i < 4; i++) {
-			bn_null(_k[i]);
 			bn_new(_k[i]);
-			bn_null(_m[i]);
 			bn_new(_m[i]);
-			ep2_null(_p[i]);
-			ep2_null(_q[i]);
 			ep2_new(_p[i]);
 			ep2_new(_q[i]);
 		}
